@@ -78,20 +78,55 @@ theorem sleepUntil_woken {d now : Int} {p : Bool} {w lag : Nat} (h : now + w < d
 
 /-! ### the processor -/
 
-theorem process_given (dl : Option Int) (it : Iter) : (process dl it).given = dl := rfl
+/-- Closed form of `process` (kopf's stage order unfolded) — a proof device only. -/
+def processClosed (deadline : Option Int) (it : Iter) : Outcome :=
+  let t0 : Int := it.now + it.dur
+  let low := [(Stage.indexing, it.now), (Stage.watching, it.now), (Stage.spawning, t0)]
+  let pre : Bool := deadline.isNone || it.gone
+  let slept : Option Slept :=
+    match deadline with
+    | some d =>
+      if it.required && !pre && it.patchMid && decide (d ≠ 0)
+      then some (sleepUntil d t0 it.pressure it.wake it.lag) else none
+    | none => none
+  let ach1 : Bool := match slept with | some s => s.timedOut | none => pre
+  let achieved := ach1 && it.patchInit
+  let tB : Int := match slept with | some s => s.tEnd | none => t0
+  let ran := it.required && achieved
+  { given := deadline, low := low, slept := slept, achieved := achieved,
+    held := it.required && !achieved,
+    entered := if ran then some tB else none,
+    handlers := if ran && !it.gone then some tB else none }
+
+theorem process_closed (dl : Option Int) (it : Iter) : process dl it = processClosed dl it := by
+  cases dl with
+  | none =>
+    cases hr : it.required <;> cases hg : it.gone <;> cases hi : it.patchInit <;>
+      simp [process, processIn, kopfOrder, runStages, stepStage, outcomeOf, PS.start, processClosed, hr, hg, hi]
+  | some d =>
+    cases hr : it.required <;> cases hg : it.gone <;> cases hm : it.patchMid <;> cases hi : it.patchInit <;>
+      by_cases hd : d = 0 <;>
+      simp [process, processIn, kopfOrder, runStages, stepStage, outcomeOf, PS.start, processClosed, hr, hg, hm, hi, hd]
+    all_goals
+      cases hto : (sleepUntil d (it.now + (it.dur : Int)) it.pressure it.wake it.lag).timedOut <;> simp [hto]
+
+theorem process_given (dl : Option Int) (it : Iter) : (process dl it).given = dl := by
+  rw [process_closed]; rfl
 
 theorem process_low (dl : Option Int) (it : Iter) :
-    (process dl it).low = [(Stage.indexing, it.now), (Stage.watching, it.now), (Stage.spawning, it.now + it.dur)] := rfl
+    (process dl it).low = [(Stage.indexing, it.now), (Stage.watching, it.now), (Stage.spawning, it.now + it.dur)] := by
+  rw [process_closed]; rfl
 
 theorem process_none (it : Iter) :
     (process none it).slept = none ∧ (process none it).achieved = it.patchInit ∧
       (process none it).held = (it.required && !it.patchInit) := by
-  simp [process]
+  simp [process_closed, processClosed]
 
 /-- Handlers ran although a deadline was set ⇒ the deadline had been reached. -/
 theorem process_handlers_deadline {d : Int} {it : Iter} {t : Int}
     (h : (process (some d) it).handlers = some t) : d ≤ t := by
-  unfold process at h
+  rw [process_closed] at h
+  unfold processClosed at h
   cases hr : it.required <;> cases hg : it.gone <;> cases hm : it.patchMid <;> cases hi : it.patchInit <;>
     by_cases hd : d = 0 <;> simp [hr, hg, hm, hi, hd] at h
   obtain ⟨h1, h2⟩ := h
@@ -99,7 +134,8 @@ theorem process_handlers_deadline {d : Int} {it : Iter} {t : Int}
 
 theorem process_handlers_ge_now {dl : Option Int} {it : Iter} {t : Int}
     (h : (process dl it).handlers = some t) : it.now ≤ t := by
-  unfold process at h
+  rw [process_closed] at h
+  unfold processClosed at h
   cases dl with
   | none =>
     cases hr : it.required <;> cases hg : it.gone <;> cases hi : it.patchInit <;> simp [hr, hg, hi] at h
@@ -113,7 +149,8 @@ theorem process_handlers_ge_now {dl : Option Int} {it : Iter} {t : Int}
 /-- Handlers can only run inside `process_changing_cause`, and never for a GONE cause. -/
 theorem process_entered_of_handlers {dl : Option Int} {it : Iter} {t : Int}
     (h : (process dl it).handlers = some t) : (process dl it).entered = some t ∧ it.gone = false := by
-  unfold process at h ⊢
+  rw [process_closed] at h ⊢
+  unfold processClosed at h ⊢
   cases dl with
   | none =>
     cases hr : it.required <;> cases hg : it.gone <;> cases hi : it.patchInit <;> simp [hr, hg, hi] at h ⊢
@@ -122,6 +159,68 @@ theorem process_entered_of_handlers {dl : Option Int} {it : Iter} {t : Int}
     cases hr : it.required <;> cases hg : it.gone <;> cases hm : it.patchMid <;> cases hi : it.patchInit <;>
       by_cases hd : d = 0 <;> simp [hr, hg, hm, hi, hd] at h ⊢
     exact h
+
+/-! ### the stage interpreter -/
+
+theorem runStages_nil (dl : Option Int) (it : Iter) (ps : PS) : runStages [] dl it ps = ps := rfl
+
+theorem runStages_cons (st : Stage) (order : List Stage) (dl : Option Int) (it : Iter) (ps : PS) :
+    runStages (st :: order) dl it ps = runStages order dl it (stepStage dl it ps st) := rfl
+
+theorem runStages_append (a b : List Stage) (dl : Option Int) (it : Iter) (ps : PS) :
+    runStages (a ++ b) dl it ps = runStages b dl it (runStages a dl it ps) := by
+  simp [runStages, List.foldl_append]
+
+/-- Only the barrier stage reads `consistency_time`. -/
+theorem stepStage_indep (dl dl' : Option Int) (it : Iter) (ps : PS) (st : Stage) (h : st ≠ Stage.barrier) :
+    stepStage dl it ps st = stepStage dl' it ps st := by
+  cases st <;> first | rfl | exact absurd rfl h
+
+theorem runStages_indep (dl dl' : Option Int) (it : Iter) : ∀ (order : List Stage) (ps : PS),
+    Stage.barrier ∉ order → runStages order dl it ps = runStages order dl' it ps
+  | [], _, _ => rfl
+  | st :: order, ps, h => by
+    have h1 : st ≠ Stage.barrier := fun e => h (by rw [e]; exact List.mem_cons_self ..)
+    have h2 : Stage.barrier ∉ order := fun e => h (List.mem_cons_of_mem _ e)
+    rw [runStages_cons, runStages_cons, stepStage_indep dl dl' it ps st h1]
+    exact runStages_indep dl dl' it order _ h2
+
+/-- The log of low-level stages only grows: what was logged stays a prefix. -/
+theorem stepStage_low_prefix (dl : Option Int) (it : Iter) (ps : PS) (st : Stage) :
+    ∃ tail, (stepStage dl it ps st).low = ps.low ++ tail := by
+  cases st
+  · exact ⟨[(Stage.indexing, ps.clock)], rfl⟩
+  · exact ⟨[(Stage.watching, ps.clock)], rfl⟩
+  · exact ⟨[(Stage.spawning, ps.clock)], rfl⟩
+  · exact ⟨[], by simp [stepStage]⟩
+  · refine ⟨[], ?_⟩
+    simp only [stepStage, List.append_nil]
+    split <;> rfl
+
+theorem runStages_low_prefix (dl : Option Int) (it : Iter) : ∀ (order : List Stage) (ps : PS),
+    ∃ tail, (runStages order dl it ps).low = ps.low ++ tail
+  | [], ps => ⟨[], by simp [runStages_nil]⟩
+  | st :: order, ps => by
+    obtain ⟨t1, h1⟩ := stepStage_low_prefix dl it ps st
+    obtain ⟨t2, h2⟩ := runStages_low_prefix dl it order (stepStage dl it ps st)
+    exact ⟨t1 ++ t2, by rw [runStages_cons, h2, h1, List.append_assoc]⟩
+
+/-- The clock never runs backwards through the stages. -/
+theorem stepStage_clock_mono (dl : Option Int) (it : Iter) (ps : PS) (st : Stage) :
+    ps.clock ≤ (stepStage dl it ps st).clock := by
+  cases st
+  · exact Int.le_refl _
+  · simp only [stepStage]; omega
+  · exact Int.le_refl _
+  · simp only [stepStage]
+    cases dl with
+    | none => exact Int.le_refl _
+    | some d =>
+      simp only
+      by_cases hc : (it.required && !(false || it.gone) && it.patchMid && decide (d ≠ 0)) = true
+      · simp only [Option.isNone_some, hc, if_true]; exact sleepUntil_ge_now _ _ _ _ _
+      · simp only [Option.isNone_some, hc]; exact Int.le_refl _
+  · simp only [stepStage]; split <;> exact Int.le_refl _
 
 /-! ### worker steps -/
 
@@ -167,6 +266,7 @@ theorem clock_mono_next {T idle : Int} {c : Cfg} {st : Step} (h : okStep idle c 
   cases st with
   | event it => have := okStep_event h; simp only [next]; omega
   | retire t => have := okStep_retire h; simp only [next]; omega
+  | background q t => exact Int.le_refl _
 
 theorem clock_mono_exec {T idle : Int} : ∀ (l : List Step) (c : Cfg), wf T idle c l = true →
     c.clock ≤ (exec T c l).clock
@@ -215,6 +315,7 @@ theorem cover_next {T idle : Int} {c : Cfg} {st : Step} {p : Ver} {tp : Int} {se
       have h2 := idleTimeout_deadline idle d c.clock
       rw [hd] at this
       right; left; simp only [next]; omega
+    | background q t => exact Or.inr (Or.inr ⟨he, d, hd, hle⟩)
 
 theorem cover_exec {T idle : Int} {p : Ver} {tp : Int} : ∀ (l : List Step) (c : Cfg) (seen : Prop),
     Cover T c p tp seen → wf T idle c l = true → (∀ st ∈ l, st.patched = none) →
@@ -273,6 +374,7 @@ theorem last_patch_split : ∀ (l : List Step), (∀ st ∈ l, st.patched = none
         cases st with
         | event x => exact ⟨[], x, q, l, rfl, hp, hnone⟩
         | retire t => cases hp
+        | background q' t => cases hp
     · right
       exact ⟨st :: a, x, q, b, by rw [hl]; rfl, hx, hb⟩
 
@@ -302,6 +404,7 @@ theorem deadline_bound_next {T idle : Int} {c : Cfg} {st : Step} (hok : okStep i
       · rw [h] at hd; cases hd
       · rw [h] at hd; have := hI d hd; omega
   | retire t => simp [next, WState.init] at hd
+  | background q t => exact hI d hd
 
 theorem deadline_bound_exec {T idle : Int} : ∀ (l : List Step) (c : Cfg), wf T idle c l = true →
     (∀ d, c.s.deadline = some d → d ≤ c.clock + T) →
@@ -342,6 +445,7 @@ theorem deadline_later {T idle : Int} : ∀ (l : List Step) (c : Cfg), wf T idle
           · rw [h2] at h1; cases h1
           · rw [h2] at h1; exact Or.inl h1
       | retire t => simp [next, WState.init] at h1
+      | background q t => exact Or.inl h1
     · right; omega
 
 /-! ### T = 0 -/
@@ -350,6 +454,7 @@ theorem disabled_next (c : Cfg) (st : Step) (h : c.s = WState.init) : (next 0 c 
   cases st with
   | event it => simp only [next, stepEvent_state_T0, h, arrive_init]
   | retire t => rfl
+  | background q t => exact h
 
 theorem disabled_exec : ∀ (l : List Step) (c : Cfg), c.s = WState.init → (exec 0 c l).s = WState.init
   | [], _, h => h
